@@ -26,7 +26,7 @@ ASSUMPTIONS = [
     "rotations are applied only with selections that are constant over degenerate groups (none / fully_diagonalize), as the property requires",
     "comparisons to 1e-9 x size of terms for floats (bitwise for power-of-two scaling), exact for exact inputs",
 ]
-BUDGET = {"quick": dict(cases=560, seconds=75), "thorough": dict(cases=12000, seconds=540)}
+BUDGET = {"quick": dict(cases=560, seconds=300), "thorough": dict(cases=12000, seconds=540)}
 CASE_TIMEOUT = 150
 MONITORS = {"poison": True, "product": False, "solvers": False}
 MONITOR_VERDICTS = ("fp", "nonfinite", "write")
